@@ -267,7 +267,9 @@ impl CelsData<RawPixels> {
         }
         let validate_ref = |id: CelId| {
             let index = id.frame as usize * num_layers + id.layer as usize;
-            if is_linkable_cel[index] {
+            // The layer is known to exist, so the index is only out of range
+            // if the frame does not exist.
+            if is_linkable_cel.get(index).copied().unwrap_or(false) {
                 Ok(())
             } else {
                 Err(AsepriteParseError::InvalidInput(format!(
@@ -286,6 +288,12 @@ impl CelsData<RawPixels> {
                         frame: frame as u16,
                         layer: layer as u16,
                     };
+                    if layer >= num_layers {
+                        return Err(AsepriteParseError::InvalidInput(format!(
+                            "Cel {} references a layer that does not exist",
+                            cel_id
+                        )));
+                    }
                     Some(cel.validate(
                         cel_id,
                         layers,
